@@ -517,6 +517,9 @@ func (d c15) syncPhase(c *core.Case, res *core.Result, r *core.Rand, forge, b *g
 					continue
 				}
 				if forgeAfter[ref] != target {
+					if localBefore[ref] != target {
+						feats = append(feats, "local-ref-differs-from-recorded-target")
+					}
 					viol("entries-published-without-their-refs", fmt.Sprintf("the forge log now holds B's entries but %s on the forge is %s, the latest unskipped published entry records %s", ref, short10(forgeAfter[ref]), short10(target)), feats...)
 					return
 				}
